@@ -12,7 +12,7 @@
 From Coq Require Import String ZArith.
 From OCI Require Import Proofs.Scope Proofs.ScopeAlg Proofs.ScopeOps Proofs.ScopeEval Proofs.ScopeText.
 From OCI Require Import Base.Outcome Model.Scope Model.Challenge Model.Auth Model.AuthSpec
-  Proofs.AuthC11 Proofs.AuthC10 Proofs.AuthC10b.
+  Proofs.AuthC11 Proofs.AuthC10 Proofs.AuthC10b Proofs.AuthParse.
 
 (* bearer_provenance + bearer_fresh + bearer_sufficient: every bearer token forwarded to a
    registry is the caller's own header, or was issued in this very phase to this call for a
@@ -39,13 +39,24 @@ Print Assumptions C10_token_request_scope.
 (* no_extra_roundtrip: while the host holds a usable token covering the required scope - one
    that was issued to a call on that host (or is configured for it), has at least a second to
    live when the call starts and was asked for a covering scope - a call on that host makes no
-   token request before its first attempt; and a second attempt is only ever made in answer
-   to a challenge.  Side condition [side2]: the clock does not run backwards along the run,
+   token request before its first attempt, and that first attempt carries a bearer token (it
+   does not go out bare to collect a 401 first; which tokens it may carry is the theorem
+   above); and a second attempt is only ever made in answer to a challenge.  Side condition [side2]: the clock does not run backwards along the run,
    and asked scopes read back from their text. *)
 Theorem C10_no_extra_roundtrip : forall E l,
   side2 E (run E l) -> all_ok (evS2 E) (history (run E l)) = true.
 Proof. exact S2_holds. Qed.
 Print Assumptions C10_no_extra_roundtrip.
+
+(* challenge_scope_whatever_the_spelling: the challenge scope that the two theorems above speak
+   of is the value of the challenge's scope parameter however its NAME is spelled (RFC 7235
+   2.1: names are case-insensitive): the parser hands out every parameter name in lower case,
+   which is how the transport - and the specification - look it up. *)
+Theorem C10_challenge_names_lower : forall header h,
+  parseWWWAuthenticate header = Ok (Some h) ->
+  no_upper (ah_scheme h) = true /\ forall k v, In (k, v) (ah_params h) -> no_upper k = true.
+Proof. exact parse_lower. Qed.
+Print Assumptions C10_challenge_names_lower.
 
 (* cache_inv: at every reachable state, every cached token is the host's own (configured, or
    handed out to a call on that host for the scope it is recorded under) and every token
